@@ -7,13 +7,19 @@ spec/IsolationNest.tla   the same for NESTED Splits: a tree of Splits (bare or b
                          every Split copying on its own account; IsolationNestSem.tla: typing, reference per leaf
 spec/Alias.tla           producer / accumulator / consumer on a heap: Fresh, MutateIsLocal (frame property)
 spec/Trace_Isolation.tla, spec/Trace_IsolationNest.tla, spec/Trace_Alias.tla   validation of recorded executions
+spec/IsolationData.tla   the same for flow values whose DATA is a structure with an inside of its own (histogram
+                         with numeric / (value, context) / list bins, 1-d and 2-d, graph, nested lists, Context
+                         object) and branches that change that inside in place; IsolationDataSem.tla: kinds,
+                         mutators, reference; Trace_IsolationData.tla
 lenaverif/aliaslib.py    real branches, real accumulators, snapshots, id() logs
+lenaverif/isodatalib.py  the structured flow values, the in-place mutators of their inside, the drivers
 """
 import copy
 import random
 
 from .. import core
 from .. import aliaslib as al
+from .. import isodatalib as idl
 from .. import replaylib as rl
 from ..util import exc_name
 
@@ -115,6 +121,77 @@ def _iso_worker(rec):
             # the fill-driven Split filled by an outer Split.run
             check_isolation(sc, rec["exp"], found, rec["src"], share=False, nested=True)
             cases.append((rl.case_hash(["isolation-inside-outer-split", sc]), True))
+    return (rl.plain(found) if found else found), cases
+
+
+def check_data_isolation(sc, exp, src_after, found, share=False, nested=False):
+    """One scenario of IsolationData.tla on the real Split / Zip: every branch compared with the branch alone
+    (spec), the caller's values with the spec's, and no mutable object of the data shared between branches."""
+    drv = DRIVER[sc["drv"]] + ":structured-data"
+
+    def report(kind, extra):
+        key = "%s:%s" % (drv, kind)
+        cur = found.get(key)
+        if cur is None or _size(sc) < _size(cur["scenario"]):
+            found[key] = dict(extra, scenario=sc, shared_elements=share, inside_outer_split=nested)
+    try:
+        per, values, objs = idl.run_scenario(sc["brs"], sc["N"], sc["bs"], sc["drv"], sc["rq"], sc["kind"],
+                                             share=share, nested=nested)
+    except Exception as exc:      # noqa
+        report("raised:" + exc_name(exc), {"exception": repr(exc)[:300]})
+        return
+    for j, v in enumerate(values):
+        now = idl.pure(v, sc["kind"])
+        if now != idl.pure(idl.flow_value(j + 1, sc["kind"]), sc["kind"]) and now != idl.norm_pure(src_after[j]):
+            report("callers-value-changed", {"index": j, "now": now, "allowed": idl.norm_pure(src_after[j])})
+            break
+    for b in range(1, len(sc["brs"]) + 1):
+        want = [idl.norm_pure(x) for x in exp[b - 1]]
+        got_yield = [p[0] for p in per.get(b, [])]
+        got_end = [p[1] for p in per.get(b, [])]
+        if got_yield != want:
+            report("branch-differs-from-alone", {"branch": b, "alone": want, "in_split": got_yield})
+        elif got_end != want:
+            report("yielded-value-changed-later", {"branch": b, "alone": want, "at_end": got_end})
+    sh = idl.shared_objects(objs, sc["kind"])
+    if sh:
+        report("object-shared-between-branches", {"branches": list(sh)})
+
+
+def data_actions(recs):
+    """How often every action of IsolationData.tla is taken in the exported behaviours, and which kinds of
+    data / mutators / drivers occur (a behaviour is determined by its scenario)."""
+    acts = dict.fromkeys(("ReadBlock", "BranchStep", "BlockDone", "Final"), 0)
+    kinds = {}
+    for r in recs:
+        if not r["brs"]:
+            continue
+        n, bs = r["N"], r["bs"]
+        blocks = 0 if n == 0 else (1 if bs == NONE else -(-n // bs))
+        acts["ReadBlock"] += blocks + 1
+        acts["BranchStep"] += blocks * len(r["brs"])
+        acts["BlockDone"] += blocks
+        acts["Final"] += 1
+        for k in ["data:" + r["kind"], "data-driver:" + r["drv"]] + \
+                ["data-mutator:" + m["t"] for br in r["brs"] for m in br["muts"]]:
+            kinds[k] = kinds.get(k, 0) + 1
+    return acts, kinds
+
+
+def _data_worker(rec):
+    """one exported scenario of IsolationData.tla on the real Split / Zip -> (findings, cases)"""
+    found, cases = {}, []
+    if not rec["brs"]:
+        return found, cases
+    sc = {k: rec[k] for k in ("brs", "N", "bs", "drv", "rq", "kind")}
+    check_data_isolation(sc, rec["exp"], rec["src"], found)
+    cases.append((rl.case_hash(["isolation-data", sc]), rec["N"] > 0 and len(rec["brs"]) > 1))
+    if len(rec["brs"]) > 1 and rec["N"] > 0:
+        check_data_isolation(sc, rec["exp"], rec["src"], found, share=True)
+        cases.append((rl.case_hash(["isolation-data-shared-elements", sc]), True))
+        if rec["drv"] == "fill":
+            check_data_isolation(sc, rec["exp"], rec["src"], found, nested=True)
+            cases.append((rl.case_hash(["isolation-data-inside-outer-split", sc]), True))
     return (rl.plain(found) if found else found), cases
 
 
@@ -334,6 +411,31 @@ def run(ctx):
         res = ctx.mc("IsolationNest", cfg, expect_violation="report")
         if res.violated != prop:
             raise core.MachineryError("the nested isolation model is insensitive: %s did not refute %s" % (cfg, prop))
+    # ---- structured data (IsolationData): invariants checked and scenarios exported by one TLC run
+    recs_d = rl.mc_and_export(ctx, "IsolationData", "IsolationData_%s.cfg" % tag, (), min_records=1000,
+                              coverage=False, workers=ctx.nworkers)
+    if ctx.thorough:
+        # three branches (the copy handed to a middle branch) over fewer templates and kinds
+        recs_d = recs_d + rl.mc_and_export(ctx, "IsolationData", "IsolationData_thorough3.cfg", (),
+                                           min_records=1000, coverage=False, workers=ctx.nworkers)
+    acts_d, kinds_d = data_actions(recs_d)
+    need_d = ["data:" + k for k in (idl.KINDS if ctx.thorough else ("histnum", "histctx", "hist2d", "histlist", "graph"))] + \
+             ["data-driver:" + d for d in DRIVER] + ["data-mutator:" + t for t in ("attr", "slot", "val", "bctx", "ctx")]
+    for a, n in list(acts_d.items()) + [(k, kinds_d.get(k, 0)) for k in need_d]:
+        if n == 0:
+            raise core.MachineryError("vacuous model: %s of IsolationData never taken / never occurs" % a)
+        ctx.actions[a] = ctx.actions.get(a, 0) + n
+    # sensitivity: a copy that carries the contents of the cells over by reference (bin lists copied by slices)
+    # is refuted; with numeric contents only it is NOT (a positive lemma: numeric flows cannot see it); a copy of
+    # the container object alone is refuted on numeric contents already
+    guards_d = (("IsolationData_slice.cfg", "Isolated"), ("IsolationData_top.cfg", "Isolated"),
+                ("IsolationData_none.cfg", "Isolated"))
+    for cfg, prop in (guards_d if ctx.thorough else guards_d[:1]):
+        res = ctx.mc("IsolationData", cfg, expect_violation="report")
+        if res.violated != prop:
+            raise core.MachineryError("the data isolation model is insensitive: %s did not refute %s" % (cfg, prop))
+    if ctx.thorough:
+        ctx.mc("IsolationData", "IsolationData_slicenum.cfg")
     if ctx.thorough:
         ctx.mc("Alias", "Alias_thorough.cfg", coverage=True, must_cover=cover_b)
         recs_b = ctx.export("Alias", "Alias_thorough_export.cfg", min_records=500)
@@ -367,6 +469,13 @@ def run(ctx):
             if key not in found or _size(val["scenario"]) < _size(found[key]["scenario"]):
                 found[key] = val
     ctx.sample({"spec_behaviour_nested_splits": recs_n[len(recs_n) // 2]})
+    # ---- A'', spec -> code: structured data
+    for f, cases in rl.pmap(_data_worker, recs_d):
+        rl.add_cases(ctx, cases)
+        for key, val in f.items():
+            if key not in found or _size(val["scenario"]) < _size(found[key]["scenario"]):
+                found[key] = val
+    ctx.sample({"spec_behaviour_structured_data": recs_d[len(recs_d) // 2]})
     # ---- A, code -> spec
     rnd = random.Random(ctx.seed)
     trace = []
@@ -410,6 +519,31 @@ def run(ctx):
                     found[key] = {"scenario": sc, "branch": b}
             outs.append(ys)
         trace_n.append(dict(sc, outs=outs))
+    # ---- A'', code -> spec: random branch lists (<= 5) over random chains of in-place mutators of the data
+    trace_d = []
+    for _ in range(2000 if ctx.thorough else 300):
+        sc = idl.rand_scenario(rnd)
+        try:
+            per, _values, objs = idl.run_scenario(sc["brs"], sc["N"], sc["bs"], sc["drv"], sc["rq"], sc["kind"],
+                                                  share=rnd.random() < 0.5)
+        except Exception as exc:     # noqa
+            key = "%s:structured-data:raised:%s" % (DRIVER[sc["drv"]], exc_name(exc))
+            if key not in found or _size(sc) < _size(found[key]["scenario"]):
+                found[key] = {"scenario": sc, "exception": repr(exc)[:300]}
+            continue
+        outs = []
+        for b in range(1, len(sc["brs"]) + 1):
+            ys = [p[0] for p in per.get(b, [])]
+            if ys != [p[1] for p in per.get(b, [])]:
+                key = "%s:structured-data:yielded-value-changed-later" % DRIVER[sc["drv"]]
+                if key not in found:
+                    found[key] = {"scenario": sc, "branch": b}
+            outs.append(ys)
+        if idl.shared_objects(objs, sc["kind"]):
+            key = "%s:structured-data:object-shared-between-branches" % DRIVER[sc["drv"]]
+            if key not in found or _size(sc) < _size(found[key]["scenario"]):
+                found[key] = {"scenario": sc}
+        trace_d.append(dict(sc, outs=outs))
     for key in sorted(found):
         ctx.violation(key, found[key])
     ctx.trace_check("Trace_Isolation", "Trace_Isolation.cfg", trace,
@@ -434,6 +568,18 @@ def run(ctx):
                 return r
         return None
     ctx.binding_demo("Trace_IsolationNest", "Trace_IsolationNest.cfg", trace_n, corrupt_nest)
+    ctx.trace_check("Trace_IsolationData", "Trace_IsolationData.cfg", trace_d,
+                    lambda r: "%s:structured-data:%s:%s" % (DRIVER[r["drv"]], r["kind"], idl.brs_key(r["brs"])),
+                    label="trace_data")
+
+    def corrupt_data(r):
+        for b, o in enumerate(r["outs"]):
+            if o and r["kind"] not in idl.NUMERIC:
+                r = copy.deepcopy(r)
+                r["outs"][b][0]["s"][0]["m"]["leak"] = 1      # as if another branch had annotated the same bin context
+                return r
+        return None
+    ctx.binding_demo("Trace_IsolationData", "Trace_IsolationData.cfg", trace_d, corrupt_data)
     # ---- B, spec -> code
     global _ONLY
     accs = al.accumulators()
@@ -517,7 +663,13 @@ def run(ctx):
              "run/fill/request/Zip driving of the root) executed on the real Splits, a second time with shared "
              "stateless elements and the nested Splits wrapped into explicit sequences, every LEAF compared with "
              "what its effective branch yields alone; (C2S) seeded random trees (depth <= 3, <= 3 sequences per "
-             "Split, random prefixes and element chains) validated by Trace_IsolationNest.  B (S2C): every history "
+             "Split, random prefixes and element chains) validated by Trace_IsolationNest.  A'' structured data (S2C): every "
+             "scenario of the bounded IsolationData model (flow values whose data is a lena histogram with numeric / "
+             "(value, context) / list bins, 1-d and 2-d, a graph, nested lists or a Context object; branches changing an "
+             "attribute of the structure, a cell, a cell's content or a cell's context in place; x flows x bufsizes x "
+             "run/fill/request/Zip driving) executed on the real Split/Zip, every branch compared with the branch alone, "
+             "the caller's values with the model's, no mutable object inside the data shared between branches; (C2S) "
+             "seeded random configurations validated by Trace_IsolationData.  B (S2C): every history "
              "fill/compute/mutate of the bounded Alias model replayed on 19 real accumulators (6 of them yielding two results per compute()) with the producer's and the "
              "consumer's contexts compared after every action; (C2S) id()-graphs of random fill/compute histories of "
              "27 accumulators (incl. request-type, Split/Zip of accumulators, multi-result SplitIntoBins/Vectorize/Mean/FillRequest; contexts inside SplitIntoBins bins included) validated by Trace_Alias (Fresh, also between the results of one call). "
